@@ -440,10 +440,15 @@ def search(ctx):
         want = content_of(cm, comps)
         base = B.impl_read(text, True, key)
         ctx.case(("authentic", text, key), trivial=not comps)
-        if base[0] != "ok" or B.file_view(base[1]) != want:
-            ctx.fail("damage-accepted", fail_record("bf3", cm, comps, key, "none", None, text, key),
-                     "the undamaged file does not read back as written: %r" % (base,))
+        if base[0] != "ok":
+            # the writer's own output is rejected: that is C01's subject, not a damage case
+            ctx.notes.append("undamaged file rejected by the reader (%s): skipped (C01/C06 territory)" % base[1])
             continue
+        if B.file_view(base[1]) != want:
+            # "the original content" of C04 is what the authentic file reads as; a difference between
+            # that and the object written is C01/C06's subject.  Damage is judged against the baseline.
+            ctx.notes.append("undamaged file reads back differently from the object written (C01/C06 territory)")
+            want = B.file_view(base[1])
         ctx.dist["bf3:comps=%d" % len(comps)] += 1
         for kind, param, t2, k2 in damages(cm, text, binary, key):
             res = B.impl_read(t2, True, k2)
@@ -466,9 +471,11 @@ def search(ctx):
         want = (key, [1], content_of(cm, comps))
         base = bec2_read(text, with_ck)
         ctx.case(("authentic-bec2", text, key), trivial=not comps)
-        if base[0] != "ok" or bec2_view(base[1]) != want:
-            ctx.fail("damage-accepted", fail_record("bec2", cm, comps, key, "none", None, text, None, with_ck),
-                     "the undamaged BEC2 file does not read back as written: %r" % (base,))
+        if base[0] == "ok" and bec2_view(base[1]) != want:
+            ctx.notes.append("undamaged BEC2 file reads back differently from the object written (C02/C06 territory)")
+            want = bec2_view(base[1])
+        if base[0] != "ok":
+            ctx.notes.append("undamaged BEC2 file rejected by the reader (%s): skipped" % base[1])
             continue
         ctx.dist["bec2:comps=%d" % len(comps)] += 1
         for kind, param, t2, ck in bec2_damages(cm, text, binary):
